@@ -66,7 +66,11 @@ static void expect_entry(struct block_iter *bi, size_t i)
 void h_block_roundtrip(void)
 {
 	verif_stop_is_violation = 1;
+#ifdef KT
+	entries_init_template();	/* long keys: order and shared-prefix lengths fixed by the shape, other bytes symbolic */
+#else
 	entries_init_sorted();
+#endif
 	uint8_t *raw; size_t rawsz;
 	struct block *blk = build_block(&raw, &rawsz);
 	V_ASSERT(blk->size == rawsz && rawsz >= 8, "block accepted by block_init");
